@@ -77,7 +77,13 @@ def check_ctor(model, R):
                 ok = True
         except Incomplete:
             pass
-    R.ob('C07.CTOR', f.qualname, 'float check before the store', ok, 'a tensor that would require grad must be rejected unless floating point, before the flag is stored', f.loc)
+    # the check must look at the data as STORED: every (re)binding of the data (dtype cast) precedes it
+    rebinds = [n for n in body_walk(f.node) if isinstance(n, ast.Assign) and any(norm(t) in ('data', 'self.data') for t in n.targets)]
+    for g in guards:
+        for rb in rebinds:
+            if cfg.path_exists(g, rb):
+                ok = False
+    R.ob('C07.CTOR', f.qualname, 'float check before the store', ok, 'a tensor that would require grad must be rejected unless its STORED data (after the dtype cast) is floating point, before the flag is stored', f.loc)
 
 
 # ------------------------------------------------------------------------------------------------ guards
